@@ -175,16 +175,52 @@ def arm_calls(an, body, sw_block, target):
 def encoder_arms(an, prog):
     """FieldValue variant -> description of FieldValue::to_be_bytes' arm; DataNumber variant -> emitted width."""
     out = {}
-    b = prog.body(FV + "::to_be_bytes")
     dn = {}
-    db = prog.body(DN + "::to_be_bytes")
+
+    def switch_on(body, adtn):
+        """Blocks of `body` that switch on the discriminant of a value of type adtn."""
+        res = []
+        sl = an.slicer(body)
+        for blk in sorted(body.live_blocks()):
+            t = body.term(blk)
+            if t["k"] != "switch" or t["op"].get("k") not in ("copy", "move"):
+                continue
+            for d in sl.defs.get(t["op"]["place"]["l"], []):
+                if d[0] == "assign" and d[3]["k"] == "discriminant":
+                    pl = d[3]["place"]
+                    ty = (pl.get("ty") or body.local_ty(pl["l"])).replace("&mut ", "").replace("&", "").strip()
+                    if ty == adtn:
+                        res.append(blk)
+        return res
+
+    def encoder_body(start, adtn):
+        """The function that holds the per-variant encoding of adtn: `start` itself or a private function it
+        delegates to (`to_be_bytes` as a thin wrapper around `write_be_bytes(&self, &mut Vec<u8>)`)."""
+        seen = set()
+        work = [(start, 0)]
+        while work:
+            p, dep = work.pop(0)
+            if p in seen or p not in prog.bodies:
+                continue
+            seen.add(p)
+            bb = prog.bodies[p]
+            if switch_on(bb, adtn):
+                return bb
+            if dep < 3:
+                for _, _, c2 in bb.calls():
+                    if c2 is not None and c2.local and c2.kind == "Item":
+                        work.append((c2.path, dep + 1))
+        return None
+
+    b = encoder_body(FV + "::to_be_bytes", FV)
+    db = encoder_body(b.path, DN) if b is not None else prog.body(DN + "::to_be_bytes")
     for body, table, adtn in ((b, out, FV), (db, dn, DN)):
         if body is None:
             continue
         adt = prog.adts[adtn]
-        for blk in sorted(body.live_blocks()):
+        for blk in switch_on(body, adtn)[:1]:
             t = body.term(blk)
-            if t["k"] == "switch" and peel(an.op(body, t["op"]))[0] == "discr":
+            if True:
                 for v, tb in t["targets"]:
                     name = [x["name"] for x in adt["variants"] if x["vi"] == v]
                     if not name:
@@ -202,9 +238,10 @@ def encoder_arms(an, prog):
                             width = 16
                         if c.npath.endswith("write_u24") or c.npath.endswith("write_i24"):
                             width = 3
+                        if c.npath == "std::vec::Vec::push" and width is None and tt["argtys"][-1:] == ["u8"]:
+                            width = 1
                     fallible = any(n in ("std::convert::TryFrom::try_from", "std::result::Result::map_err") or "try_from" in n for n in names)
                     table[name[0]] = {"calls": names, "width": width, "fallible": fallible}
-                break
     return out, dn
 
 
